@@ -863,6 +863,35 @@ fn proof_case(ctx: &Ctx, idx: usize) {
 		run.count(&format!("B.legacy_outside_domain.{}", r_same.tag()), 1);
 	}
 
+	// ---- the same output proven over extra data (proof::create's last argument: what the proof additionally commits to):
+	// it verifies over that data, and rewinding with the same seed and the same data recovers the same triple
+	if idx % 5 == 1 {
+		let n_extra = 1 + p.usize_below(64);
+		let extra: Vec<u8> = if idx % 10 == 1 { vec![] } else { p.bytes(n_extra) };
+		if let Ok(prf_x) = proof::create(kc, &builder, c.amount, &id, c.sw, commit, Some(extra.clone())) {
+			run.eval(&format!("{};chk=extra_data", base), true);
+			if proof::verify(secp, commit, prf_x, Some(extra.clone())).is_err() {
+				run.violation(
+					&format!("check=proof_verify_over_extra_data;builder={};switch={}", b, sws),
+					&format!("a range proof created over {} bytes of extra data does not verify over the same data", extra.len()),
+					replay.clone(),
+				);
+			} else {
+				let r_x = classify(proof::rewind(secp, &builder, commit, Some(extra.clone()), prf_x), c.amount, &id, c.sw);
+				if in_domain {
+					expect_exact(
+						"rewind_same_seed_over_extra_data",
+						r_x,
+						&format!("B.rewind_same_seed_over_extra_data.exact.{}.{}", b, sws),
+						&format!(" (proof over {} bytes of extra data)", extra.len()),
+					);
+				} else {
+					no_wrong_data("rewind_same_seed_over_extra_data_outside_legacy_domain", &r_x, "");
+				}
+			}
+		}
+	}
+
 	// ---- rewind with a builder over a second keychain made from the same seed
 	// (from_seed costs ~20 ms: every third case)
 	if idx % 3 == 0 {
